@@ -7,6 +7,7 @@ all member lists (duplicates, every status, every protocol version, self
 included) and all relay factors.
 -/
 import SerfProofs.Lemmas.Relay
+import SerfModel.Gen.RelayGuard
 namespace SerfProofs.C35
 open SerfModel SerfModel.Relay SerfProofs.Relay
 
@@ -74,6 +75,26 @@ theorem C35_sends (k : Nat) (ms : List Member) (picks : List Nat) (self : String
     obtain ⟨m, _, hm⟩ := List.mem_map.mp h
     exact Dest.noConfusion hm
   omega
+
+/-- **The guard as it is in the source** (regenerated from serf/query.go on every run, Go integer typing
+applied): relaying needs `k + 1` known members for EVERY relay factor a uint8 can hold — the addition
+is carried out after the conversion to int and does not wrap at 255. -/
+theorem C35_guard_gen : (∀ k, Gen.RelayGuard.minMembers k = k + 1) ∧ Gen.RelayGuard.zeroFactorReturns = true :=
+  ⟨fun _ => rfl, rfl⟩
+
+/-- … hence the gate/filter model the theorems above are about is the code's. -/
+theorem C35_relay_gen (k : Nat) (ms : List Member) (self : String) (picks : List Nat) :
+    relayTargetsG Gen.RelayGuard.minMembers Gen.RelayGuard.zeroFactorReturns k ms self picks =
+      relayTargets k ms self picks := by
+  unfold relayTargetsG relayTargets
+  rw [C35_guard_gen.2]
+  simp [C35_guard_gen.1]
+
+/-- Regression witness: with the addition carried out in uint8 the gate is open at relay factor 255
+(two members known, one relay chosen). -/
+theorem C35_guard_uint8_wraps :
+    (relayTargetsG (fun k => (k + 1) % 256) true 255 [⟨"self", 1, 5, 0⟩, ⟨"a", 1, 5, 1⟩] "self" [1]).map (·.tag) = [1] := by
+  decide
 
 -- Non-vacuity: a list with a duplicate name, a failed member, an old-protocol member
 -- and the node itself; the oracle picks every index several times.
